@@ -5,10 +5,11 @@ From Coq Require Import List Bool ZArith.
 Import ListNotations.
 From Molli Require Import Model.Alias Proofs.Alias Gen.CopyRoutes.
 
-(* Recorded finding, excluded BY NAME (class, route, field): Molecule.join resets the partial
-   charges (known_findings: C06:Molecule:join-Molecule:charges-differ).  Everything else the
-   specification asks of that route is still enforced.  A repair keeps this file green. *)
-Definition known : known_t := [(KMolecule, RJoin KMolecule, FCharges)].
+(* Recorded findings are excluded BY NAME (class, route, field), e.g.
+   [(KMolecule, RJoin KMolecule, FCharges)]; everything else the specification asks of such a route
+   stays enforced, and a repair keeps this file green.  Every C06 defect found so far has been
+   repaired in /repo, so nothing is excluded today. *)
+Definition known : known_t := [].
 
 (* (1) kernel computation over the regenerated table: every route the property names is present and
    its alias row meets the specification written from the property text (Model/Alias.v need_of /
